@@ -115,9 +115,12 @@ def gen_ops_cases(rng, count, weakly, max_atoms=5, max_conds=7, nq=6, prefix="g"
         m = rng.randrange(1, max_conds + 1)
         r = rng.random()
         mc = False
+        linked = None
         if r < 0.12 and n >= 5:
             base = gen_base_multiclause(rng, n, m)
             mc = True
+        elif r > 0.9 and n >= 4:
+            base, linked = gen_base_linked(rng, n)
         elif r < 0.24 and n >= 4:
             base = gen_base_layered(rng, n, m)
         elif r < 0.45 and n >= 2:
@@ -149,6 +152,9 @@ def gen_ops_cases(rng, count, weakly, max_atoms=5, max_conds=7, nq=6, prefix="g"
         for j in range(nq):
             b, a = gen_query(rng, n, extra_atom=True)
             qs.append((j + 1, b, a))
+        if linked and nq:
+            for (b_, a_) in linked:
+                qs.append((len(qs) + 1, b_, a_))
         if mc and nq:
             # queries over the multi-clause template: (x ; y | a, (p ; q)) and variants
             ats = sorted({x for (_, b_, a_) in base for x in (common_atoms(b_) | common_atoms(a_))})
@@ -247,6 +253,37 @@ def gen_ops_cases(rng, count, weakly, max_atoms=5, max_conds=7, nq=6, prefix="g"
         cases.append(make_case("%s%d" % (prefix, i), n, base, qs, weakly))
     return cases
 
+
+
+def gen_base_linked(rng, n):
+    """Groups of two atoms with a rule inside each group, and rules that link a group to the previous one only through their
+    antecedent (y, (!a ; b)): a conditional can be unblocked by the removal of one it shares no atom with, through the link.
+    Returns the base and queries about the links."""
+    atoms = list(range(n))
+    rng.shuffle(atoms)
+    groups = [atoms[i:i + 2] for i in range(0, n - 1, 2)][:3]
+    conds, qs = [], []
+    lit = lambda x: V(x) if rng.random() < 0.6 else Not(V(x))
+    for gi, (u, v) in enumerate(groups):
+        inner = (lit(v), V(u))
+        if gi == 0 or rng.random() < 0.5:
+            conds.append(inner)
+        else:
+            qs.append(inner)
+        if gi > 0:
+            pu, pv = groups[gi - 1]
+            bridge = Or(Not(V(pu)), V(pv)) if rng.random() < 0.6 else And(V(pu), V(pv))
+            link = (Not(inner[0]) if rng.random() < 0.6 else lit(v), And(V(u), bridge))
+            if rng.random() < 0.6:
+                conds.append(link)
+            else:
+                qs.append(link)
+            qs.append((link[0], V(u)))
+            qs.append((Not(link[0]), V(u)))
+    if rng.random() < 0.4:
+        conds.append((lit(rng.choice(atoms)), T))
+    rng.shuffle(conds)
+    return [(i + 1, b, a) for i, (b, a) in enumerate(conds)], qs
 
 
 def gen_base_layered(rng, n, m):
